@@ -143,7 +143,7 @@ def case_stream(rng, tier):
     i = 0
     kinds = ["missing", "open_err", "read_err", "isdir", "malformed", "malformed", "dsl", "dsl", "dsl_end", "out_schema", "out_x",
              "stdout_write", "stdout_write", "gz_trunc", "join_left", "first_record_early_exit", "target_open", "target_write",
-             "target_write", "target_close", "split_write", "redirect_write", "pipe_early_exit", "not_fired", "target_schema"]
+             "target_write", "target_close", "split_write", "redirect_write", "pipe_early_exit", "not_fired", "target_schema", "evicted_target_write", "two_missing"]
     while True:
         i += 1
         r = rng.fork("f", i)
@@ -153,7 +153,7 @@ def case_stream(rng, tier):
             yield c
 
 
-NAMED_ONLY = ("dsl", "dsl_end", "out_schema", "out_x", "join_left", "split_write", "redirect_write", "pipe_early_exit", "target_schema")
+NAMED_ONLY = ("evicted_target_write", "dsl", "dsl_end", "out_schema", "out_x", "join_left", "split_write", "redirect_write", "pipe_early_exit", "target_schema")
 
 
 def build_case(r, kind, tier):
@@ -316,6 +316,35 @@ def build_case(r, kind, tier):
             verbs = [mut, ["put", "-q", "emit > \"tgt.out\", $*"]]
         else:
             verbs = [mut, ["split", "-n", "1000", "--prefix", "tgt"]]
+    elif kind == "evicted_target_write":
+        # a target that fails on write is evicted from the handle cache (knob lru) and never revisited:
+        # the error surfaces only when the evicted handler is flushed and closed
+        cap = r.choice([2, 3])
+        seq = ["zz0"] * r.randint(1, 3) + ["zz%d" % (1 + (i % (cap + 2))) for i in range(r.randint(cap + 2, 20))]
+        recs = [[("a", k), ("b", "x"), ("i", str(i)), ("x", "0.5"), ("y", "1")] for i, k in enumerate(seq)]
+        files[names[j]] = fmt_text(fmt, recs)
+        which = r.choice(["split", "tee_stmt", "print_stmt", "emit_stmt"])
+        if which == "split":
+            verbs = [["split", "-g", "a", "--prefix", "ev"]]
+            tpath = "ev_zz0"
+        elif which == "tee_stmt":
+            verbs = [["put", "-q", "tee > \"ev_\".$a.\".out\", $*"]]
+            tpath = "ev_zz0"
+        elif which == "print_stmt":
+            verbs = [["put", "-q", "print > \"ev_\".$a.\".out\", $i"]]
+            tpath = "ev_zz0"
+        else:
+            verbs = [["put", "-q", "emit > \"ev_\".$a.\".out\", $*"]]
+            tpath = "ev_zz0"
+        oflags = r.choice([[], ["--ojson"], ["--ocsv"]])
+        faults = [{"kind": "write_err", "path": tpath, "at": 0, "errno": r.choice(["ENOSPC", "EIO"]), "torn": False}]
+        case["knobs"] = {"lru": cap}
+        for k in range(nfiles):
+            if k != j:
+                files[names[k]] = fmt_text(fmt, [])
+    elif kind == "two_missing":
+        # two unopenable inputs: the second error is posted while the first may still be pending
+        names = ["nope1." + fmt] + names + ["nope2." + fmt]
     elif kind == "pipe_early_exit":
         big = rect_records(r, r.choice([1500, 3000]))
         files[names[j]] = fmt_text(fmt, big)
@@ -355,7 +384,8 @@ def evaluate(case, chk):
     faults = case.get("faults") or []
     if case.get("configs") is None:
         # pilot without the injected fault: byte counts for placement, goroutine names for the sweep
-        pilot = pool.run1(mkspec(with_batch(args, case["batch"]), sched={"policy": "rtb", "seed": 1}, snapshot=True, log_ops=True, **kw))
+        pilot = pool.run1(mkspec(with_batch(args, case["batch"]), sched={"policy": "rtb", "seed": 1}, snapshot=True, log_ops=True,
+                                 knobs=case.get("knobs"), **kw))
         vd.runs.append(pilot)
         if pilot.status in ("deadlock", "livelock", "panic") and not faults:
             judge_fault(case, vd, pilot, {"pilot": True}, fired=True)
@@ -385,7 +415,9 @@ def evaluate(case, chk):
         vd.runs.append(ref)
     for cfg in case["configs"]:
         a2 = with_batch(args, cfg.get("batch"))
-        r = pool.run1(mkspec(a2, sched=cfg["sched"], knobs=cfg.get("knobs"), chunk=cfg.get("chunk"), rtseed=cfg.get("rtseed", 1),
+        kn = dict(cfg.get("knobs") or {})
+        kn.update(case.get("knobs") or {})
+        r = pool.run1(mkspec(a2, sched=cfg["sched"], knobs=kn or None, chunk=cfg.get("chunk"), rtseed=cfg.get("rtseed", 1),
                              faults=faults, snapshot=ref is not None, **kw))
         vd.runs.append(r)
         if ref is not None and ref.status == "exit" and ref.code == 0 and r.status == "exit" and r.code == 0 and not r.fired:
